@@ -773,6 +773,19 @@ impl<'tcx> Dumper<'tcx> {
                         o = o.f("unsafe", J::Bool(!sig.safety().is_safe()));
                         o = o.f("name", J::s(tcx.item_name(did).to_string()));
                     }
+                    {
+                        // names of the type/const generic parameters, in the order generic args are dumped
+                        let gdid = if kind == DefKind::Closure { tcx.typeck_root_def_id(did) } else { did };
+                        let g = tcx.generics_of(gdid);
+                        let mut names = Vec::new();
+                        for i in 0..g.count() {
+                            let p = g.param_at(i, tcx);
+                            if !matches!(p.kind, ty::GenericParamDefKind::Lifetime) {
+                                names.push(J::s(p.name.to_string()));
+                            }
+                        }
+                        o = o.f("generics", J::Arr(names));
+                    }
                     if kind == DefKind::Closure {
                         let parent = tcx.typeck_root_def_id(did);
                         o = o.f("parent", J::s(self.path(parent)));
